@@ -193,7 +193,7 @@ func ruleC07a(c *Ctx) {
 		} else {
 			okArgs := p.isParam(wants.Call.Args[0], s.Req) && p.isParam(wants.Call.Args[1], s.RawW)
 			c.check(okArgs, name, "wantsCompressedResponse is asked about this request and this writer", p.ipos(wants), "arguments are the function's own request and writer", "the decision is taken on a different request or writer")
-			enc := strip(s.Call.Call.Args[1])
+			enc := strip(refinePhi(s.Call.Call.Args[1], facts))
 			ex, ok := enc.(*ssa.Extract)
 			c.check(ok && ex.Tuple == ssa.Value(wants) && ex.Index == 1, name, "the coding installed is the one chosen for the request", pos, "encoding argument = result #1 of the same wantsCompressedResponse call", "the installed coding is not the one wantsCompressedResponse selected from Accept-Encoding")
 			c.check(p.isParam(s.Call.Call.Args[0], s.RawW), name, "the encoder wraps the incoming writer", pos, "first argument is the function's own writer", "the encoder wraps a different writer than the one that was checked")
